@@ -1,4 +1,4 @@
-package gontainer
+package zzvfgen
 
 import (
 	"errors"
@@ -6,11 +6,11 @@ import (
 )
 
 // The run-time helpers of a generated container (_getEnv, _getEnvInt,
-// _paramTodo, _concatenateChunks) exist, as compiled Go, in the container the
-// generator produced for itself (this package). They are executed as SSA
-// against the reference functions printed in docs/META.md; VF_C03_helpers_text
-// (package compiler) ties the text of these methods to what the current
-// templates emit.
+// _paramTodo, _concatenateChunks): this package is the container the current
+// tree generates, at the start of every run, for a small fixed configuration
+// (cmd/vcheck freshCfg); it exists only in the overlay. The helpers do not
+// depend on the configuration; they are executed as SSA against the reference
+// functions printed in docs/META.md.
 
 func init() {
 	vfRegister("VF_C03_getenv", VF_C03_getenv)
@@ -55,7 +55,7 @@ func vfSetEnv() string {
 
 // VF_C03_getenv: docs/META.md `env`.
 func VF_C03_getenv() {
-	c := &gontainer{}
+	c := &Gontainer{}
 	key := vfSetEnv()
 	var def []string
 	n := vfChoice("ndef", 3)
@@ -79,7 +79,7 @@ func VF_C03_getenv() {
 
 // VF_C03_getenvint: docs/META.md `envInt`.
 func VF_C03_getenvint() {
-	c := &gontainer{}
+	c := &Gontainer{}
 	key := vfSetEnv()
 	vfAtoiN, vfAtoiOK = vfInt("atoi"), vfBool("atoiOK")
 	var def []int
@@ -109,7 +109,7 @@ func VF_C03_getenvint() {
 
 // VF_C03_paramtodo: docs/META.md `todo`.
 func VF_C03_paramtodo() {
-	c := &gontainer{}
+	c := &Gontainer{}
 	var ps []string
 	n := vfChoice("n", 3)
 	for i := 0; i < n; i++ {
@@ -130,7 +130,7 @@ func VF_C03_paramtodo() {
 // VF_C03_concat: a multi-chunk pattern concatenates the string casts of its
 // chunks in order and stops at the first failing chunk.
 func VF_C03_concat() {
-	c := &gontainer{}
+	c := &Gontainer{}
 	n := 1 + vfChoice("n", 3)
 	vals := make([]any, n)
 	fails := make([]bool, n)
